@@ -75,6 +75,17 @@ int _vnacal_new_solve_simple(vnacal_new_solve_state_t *vnssp,
 	int iteration = 0;
 
 	/*
+	 * Make sure there are enough equations before sizing the
+	 * coefficient matrix from them.
+	 */
+	if (equations < unknowns) {
+	    _vnacal_error(vcp, VNAERR_MATH, "vnacal_new_solve: "
+		    "insufficient number of standards to solve "
+		    "error terms");
+	    goto out;
+	}
+
+	/*
 	 * For each iteration on the V matrices (if in use)...
 	 */
 	for (;;) {
@@ -124,12 +135,6 @@ int _vnacal_new_solve_simple(vnacal_new_solve_state_t *vnssp,
 	     * Solve for the unknowns using LU decomposition if a_matrix
 	     * is square, or QR decomposition if the system is overdetermined.
 	     */
-	    if (equations < unknowns) {
-		_vnacal_error(vcp, VNAERR_MATH, "vnacal_new_solve: "
-			"insufficient number of standards to solve "
-			"error terms");
-		return -1;
-	    }
 	    if (equations == unknowns) {
 		double complex determinant;
 
@@ -138,7 +143,7 @@ int _vnacal_new_solve_simple(vnacal_new_solve_state_t *vnssp,
 		if (determinant == 0.0 || !isnormal(cabs(determinant))) {
 		    _vnacal_error(vcp, VNAERR_MATH, "vnacal_new_solve: "
 			    "singular linear system");
-		    return -1;
+		    goto out;
 		}
 	    } else {
 		int rank;
@@ -148,7 +153,7 @@ int _vnacal_new_solve_simple(vnacal_new_solve_state_t *vnssp,
 		if (rank < unknowns) {
 		    _vnacal_error(vcp, VNAERR_MATH, "vnacal_new_solve: "
 			    "singular linear system");
-		    return -1;
+		    goto out;
 		}
 	    }
 	    /*
@@ -165,7 +170,7 @@ int _vnacal_new_solve_simple(vnacal_new_solve_state_t *vnssp,
 	     */
 	    if (vs_update_v_matrices("vnacal_new_solve", vnssp, sindex,
 			&x_vector[offset], unknowns) == -1) {
-		return -1;
+		goto out;
 	    }
 	    sum_dx_squared = 0.0;
 	    for (int i = 0; i < x_length; ++i) {
